@@ -16,6 +16,7 @@ type SX struct {
 	Str  string
 	A    []*SX      // operands / args
 	Vars []SVarDecl // quantifier variables
+	Trig [][]*SX    // quantifier triggers  forall x T :: {f(x), g(x)} body
 	Pos  string
 }
 
@@ -198,6 +199,24 @@ func (p *sparser) expr() (*SX, error) {
 		}
 		if err := p.expect("::"); err != nil {
 			return nil, err
+		}
+		for p.isOp("{") {
+			p.next()
+			var grp []*SX
+			for {
+				t, err := p.expr()
+				if err != nil {
+					return nil, err
+				}
+				grp = append(grp, t)
+				if !p.accept(",") {
+					break
+				}
+			}
+			if err := p.expect("}"); err != nil {
+				return nil, err
+			}
+			q.Trig = append(q.Trig, grp)
 		}
 		body, err := p.expr()
 		if err != nil {
@@ -574,12 +593,15 @@ type SpecSet struct {
 	Defines map[string]*Define
 	Funs    []FunDecl
 	Sorts   []string
+	SeqSorts []SeqSort // seqsort NAME ELEMSORT : abstract finite sequences of slice contents
 	Ghosts  []GhostVar
 	Axioms  []*Clause
 	AxiomPkg map[*Clause]string
 	Guarded []GuardDecl
 	Order   []string
 }
+
+type SeqSort struct{ Name, Elem string }
 
 type GuardDecl struct {
 	Field string // T.f
@@ -593,7 +615,7 @@ func NewSpecSet() *SpecSet {
 
 var clauseKeywords = map[string]bool{"requires": true, "ensures": true, "modifies": true, "pure": true, "trusted": true, "lemma": true,
 	"loop": true, "invariant": true, "decreases": true, "callspec": true, "observe": true, "replay": true, "prop": true, "func": true,
-	"sort": true, "fun": true, "ghost": true, "axiom": true, "define": true, "inline": true, "noinline": true, "guarded": true, "flag": true, "loopmodifies": true, "lockrequires": true, "lockensures": true, "lockinvariant": true, "witness": true, "loopfresh": true, "assumes": true, "loopkeeps": true, "assert": true, "acquires": true}
+	"sort": true, "seqsort": true, "fun": true, "ghost": true, "axiom": true, "define": true, "inline": true, "noinline": true, "guarded": true, "flag": true, "loopmodifies": true, "lockrequires": true, "lockensures": true, "lockinvariant": true, "witness": true, "loopfresh": true, "assumes": true, "loopkeeps": true, "assert": true, "acquires": true}
 
 // ParseSpecLines parses the //@ lines of one package (pkgPath is used for type resolution).
 func (ss *SpecSet) ParseSpecLines(lines []SpecLine, pkgPath string, keyPrefix string) error {
@@ -647,6 +669,13 @@ func (ss *SpecSet) ParseSpecLines(lines []SpecLine, pkgPath string, keyPrefix st
 		switch it.kw {
 		case "sort":
 			ss.Sorts = append(ss.Sorts, it.rest)
+		case "seqsort":
+			f := strings.Fields(it.rest)
+			if len(f) != 2 {
+				return fmt.Errorf("%s:%d: seqsort NAME ELEMSORT", it.src.File, it.src.Line)
+			}
+			ss.Sorts = append(ss.Sorts, f[0])
+			ss.SeqSorts = append(ss.SeqSorts, SeqSort{f[0], f[1]})
 		case "fun":
 			// fun name(S1, S2) S   (sorts may be parenthesised SMT sorts)
 			i := strings.Index(it.rest, "(")
